@@ -261,6 +261,28 @@ def run(ctx):
     ctx.need("R04.1", "parsing_error raise sites on the parse path", n_allowed, 8)
     ctx.need("R04.1", "guarded developer-error raise sites on the parse path", n_guard, 5)
 
+    # (clang's CFG has no edges into catch handlers, so the context walk never enters them: the format calls that stand inside a handler of a
+    # function on the parse path - a caught parsing_error re-raised with a richer message - are collected from the handler blocks directly)
+    from .common import handlers_of
+    for fid in sorted(cg.reachable([e0.id for e0 in entries])):
+        hf = prog.fn(fid)
+        if hf is None or not hf.has_cfg or not hf.file.startswith("/repo/"):
+            continue
+        hbs = handlers_of(hf)
+        if not hbs:
+            continue
+        live = set(hf.reachable_blocks())
+        seenb, stb = set(), [hb for hb, _ in hbs]
+        while stb:
+            xb = stb.pop()
+            if xb in seenb or xb in live:
+                continue
+            seenb.add(xb)
+            for i0, e0 in enumerate(hf.elems(xb)):
+                for n0 in elem_calls(e0):
+                    if (n0.get("name") or "") == "nitro::format":
+                        formats.setdefault((hf.id, n0.get("ln"), fmt(n0)), {"fn": hf, "node": n0, "bid": xb, "idx": i0})
+            stb.extend(to for to, _ in hf.succs(xb))
     # ---- format strings on the parse path: formatter::str() raises the library's BASE exception when placeholders and
     # arguments disagree, so the format string must be a literal (no user data in it) whose `{}` count equals the % operands
     for key, t in sorted(formats.items(), key=lambda kv: (kv[0][0], kv[0][1] or 0)):
@@ -449,6 +471,7 @@ def run(ctx):
         from .common import share
         share(ctx, "C14", ("R14.2", "R14.3", "R14.5"), "R04.5", "reset obligations shared with C14 (incl. no parser member written on the parse path: a lookup table kept across parses outlives the options it points to)", 3)
         share(ctx, "C13", ("R13.9",), "R04.5", "derived-table obligations shared with C13", 1)
+        share(ctx, "C14", ("R14.4",), "R04.5", "argument-lifetime obligations shared with C14 (argv is copied before the previous result is released: a well-formed word that points into it is not read after free)", 1)
         share(ctx, "C11", ("R11.4",), "R04.5", "vocabulary obligations shared with C11 (a documented environment word is not refused)", 10)
         share(ctx, "C01", ("R01.5", "R01.7", "R01.8", "R01.11"), "R04.5", "matching obligations shared with C01", 6)
         # ---- R04.6: documented conditions that must raise do raise (positional limit in every mode; syntax check for every token ahead of `--`)
